@@ -79,7 +79,12 @@ def run(ctx, repo, tier):
             for fi, stmt, attr in stores_in_class(c, CONSTRUCTION):
                 kind = classify_store(fi, stmt, attr)
                 ctx.instance("IDEMP")
-                if kind in ("init_once", "independent", "idempotent_filter"):
+                if kind.startswith("sticky:"):
+                    ctx.violate("IDEMP", "C08.idemp.sticky", f"a getter stores a value computed from its call argument(s) `{kind[7:]}` in "
+                                f"self.{attr}: what later calls return depends on the arguments of earlier calls (a 'sticky' option), not only "
+                                "on the grid specification", fi.where, norm_stmt(stmt)[:200],
+                                witness=f"self.{attr} <- argument {kind[7:]}")
+                elif kind in ("init_once", "independent", "idempotent_filter"):
                     ctx.ok("IDEMP", "C08.idemp.store", f"store to self.{attr} in a getter is {kind.replace('_', ' ')}", fi.where, norm_stmt(stmt)[:160])
                 else:
                     ctx.violate("IDEMP", "C08.idemp.store", f"a geometry getter updates self.{attr} from its previous value "
